@@ -3,7 +3,7 @@
 use super::{decode, PropDef};
 use crate::engine::proc::{lossy, Ctx};
 use crate::engine::{fail, Gen, Outcome, Pass, Worker};
-use findutils::find::matchers::verif_hooks::regex_match_many;
+use findutils::find::matchers::verif_hooks::{regex_match_error, regex_match_many};
 use serde::{Deserialize, Serialize};
 use serde_json::{json, Value};
 use std::collections::BTreeSet;
@@ -19,6 +19,7 @@ pub static DEF: PropDef = PropDef {
     ],
     run,
     replay,
+    fuzz: Some(fuzz_one),
 };
 
 #[derive(Serialize, Deserialize, Debug, Clone, PartialEq, Eq)]
@@ -557,6 +558,10 @@ fn family_name(s: &str) -> &'static str {
 }
 
 pub fn check_hook(_ctx: &mut Ctx, c: &Case) -> Outcome {
+    check_hook_inner(c)
+}
+
+pub fn check_hook_inner(c: &Case) -> Outcome {
     if !c.re.expressible(&c.syntax) {
         return Pass::discard("AST not expressible in this syntax");
     }
@@ -573,6 +578,13 @@ pub fn check_hook(_ctx: &mut Ctx, c: &Case) -> Outcome {
     let members: Vec<&String> = paths.iter().zip(&wants).filter(|(_, w)| **w).map(|(p, _)| p).collect();
     for ((p, g), w) in paths.iter().zip(&got).zip(&wants) {
         if g != w {
+            // a member that is rejected because the backtracking engine gave up (its retry limit)
+            // is a finding of its own (listed in known_findings.json): told apart through the hook
+            if *w {
+                if let Some(e) = regex_match_error(&c.syntax, &pattern, c.icase, p) {
+                    return fail("C17:regex-engine-gives-up:member-rejected", format!("find r -regextype {} -regex {pattern:?} on {p:?}: the engine reports {e:?}; the path is in the language but is reported as not matching\nAST {:?}", c.syntax, c.re));
+                }
+            }
             return fail(
                 format!("C17:{}{}", signature_parts(c, *w, p, &members), if c.icase { ":icase" } else { "" }),
                 format!("find r -regextype {} {} {pattern:?}: path {p:?} is {} the language, find says {}\nAST {:?}", c.syntax, if c.icase { "-iregex" } else { "-regex" }, if *w { "in" } else { "NOT in" }, if *g { "match" } else { "no match" }, c.re),
@@ -765,5 +777,26 @@ fn replay(w: &mut Worker, sub: &str, v: Value) -> Outcome {
         check_e2e(&mut w.ctx, &decode(v))
     } else {
         check_hook(&mut w.ctx, &decode(v))
+    }
+}
+
+/// libFuzzer entry.  Byte 0 even: the remaining bytes are the choice stream of the structured
+/// generator (AST, syntax, subjects) and the membership oracle applies.  Byte 0 odd: the remaining
+/// bytes are raw pattern text in the syntax picked by byte 1 - oracle: no panic (an error from
+/// the compiler is fine).
+pub fn fuzz_one(data: &[u8]) -> Option<crate::engine::Violation> {
+    if data.len() < 3 {
+        return None;
+    }
+    if data[0] % 2 == 0 {
+        let words = crate::words_of(&data[1..]);
+        let mut g = Gen::new(&words);
+        let c = gen_case(&mut g);
+        crate::engine::violation_of(check_hook_inner(&c))
+    } else {
+        let syntax = SYNTAXES[data[1] as usize % SYNTAXES.len()];
+        let text = String::from_utf8_lossy(&data[2..data.len().min(120)]).replace('\0', "");
+        let _ = regex_match_many(syntax, &text, data[1] & 0x80 != 0, &["r/a", "r/ab", "r/", "r/aaaaaaaaaaaaaaaaaaaaaaaaab"]);
+        None
     }
 }
